@@ -515,6 +515,20 @@ def MState.step (m : MState) (st : IStep) : MState :=
           | _ => m) m
       | none => m
     | _ => m
+  -- C03 / C11 frames: the frame of a session reaches the connections of its members, all of them and no other
+  -- (a connection that switched sessions is driven by the frames of the session it is in, not of the one it left)
+  let m := match st.ev with
+    | .tick sid =>
+      let pumped := st.extra.filterMap fun (x : String) =>
+        match x.splitOn " " with | ["pumped", c] => c.toNat? | _ => none
+      let members := ((m0.sessions.filter fun (s : MSess) => s.sid == sid).flatMap fun (s : MSess) => s.members.map Prod.snd)
+      let strangers := pumped.filter fun c => !members.contains c
+      let missed := members.filter fun c => !pumped.contains c
+      let m := if strangers.isEmpty then m else
+        m.bad "C03" "frame-of-another-session-reaches-connection" s!"the frame of session {sid} drove the schedulers of connections {strangers}, which are not in it (its members' connections: {members})"
+      if missed.isEmpty then m else
+        m.bad "C11" "frame-does-not-reach-member" s!"the frame of session {sid} did not reach the connections {missed} of its members"
+    | _ => m
   -- C20 sharing: the planes are the session's - between two samples every member asking for the same region gets the
   -- same answer, whoever asks
   let m := match st.ev with
